@@ -311,18 +311,19 @@ class Cfg:
 
     def __init__(self, version="v2c", community="public", user="u", auth=None, priv=None,
                  auth_kt="password", priv_kt="password", auth_pw=b"authpass123", priv_pw=b"privpass456",
-                 engine_given=False, client="sync"):
+                 engine_given=False, client="sync", empty_engine=False):
         self.version, self.community, self.user = version, community, user
         self.auth, self.priv = auth, priv          # None | 'md5' | 'sha1' ; None | 'des' | 'aes'
         self.auth_kt, self.priv_kt = auth_kt, priv_kt
         self.auth_pw, self.priv_pw = auth_pw, priv_pw
         self.engine_given, self.client = engine_given, client
+        self.empty_engine = empty_engine   # pass engine_id=b"" explicitly instead of None (same meaning: discover)
 
     def key(self):
         if self.version != "v3":
             return "%s/%s" % (self.version, self.client)
         return "v3/%s/%s/%s%s/%s/%s" % (self.auth or "noauth", self.priv or "nopriv", self.auth_kt[0], self.priv_kt[0],
-                                        "eng" if self.engine_given else "disc", self.client)
+                                        "eng" if self.engine_given else ("disc0" if self.empty_engine else "disc"), self.client)
 
     def auth_alg(self):
         return {None: None, "md5": C.MD5, "sha1": C.SHA1}[self.auth]
@@ -384,7 +385,7 @@ def make_session(cfg, agent, timeout=1.0, **kw):
     if cfg.version == "v3":
         user = make_user(cfg, agent.engine_id)
         return SnmpSession("127.0.0.1", port=agent.port, user=user, version=SnmpVersion.v3,
-                           engine_id=agent.engine_id if cfg.engine_given else None, timeout=timeout, **kw)
+                           engine_id=agent.engine_id if cfg.engine_given else (b"" if cfg.empty_engine else None), timeout=timeout, **kw)
     ver = SnmpVersion.v1 if cfg.version == "v1" else SnmpVersion.v2c
     return SnmpSession("127.0.0.1", port=agent.port, community=cfg.community, version=ver, timeout=timeout, **kw)
 
